@@ -104,3 +104,10 @@ func (s *Stall) wait(c *MemConn) error {
 		}
 	}
 }
+
+// SetWriteErr makes every following WriteTo fail with err (nil restores normal operation).
+func (c *MemConn) SetWriteErr(err error) {
+	c.mu.Lock()
+	c.WriteErr = err
+	c.mu.Unlock()
+}
